@@ -374,16 +374,64 @@ func jsonStr(s string) string {
 	return string(b)
 }
 
+// pickRootDefault: mostly a root directory that exists in the current tree and a default file that exists
+// relative to it (the loader stats both), 1/7 something from the free pools (missing root, file as root,
+// default outside the root, missing default).
+func pickRootDefault(r *vh.Rand) (string, string) {
+	if r.Chance(1, 7) {
+		return fileRoots[r.Intn(len(fileRoots))], fileDefaults[r.Intn(len(fileDefaults))]
+	}
+	dirs := map[string]bool{}
+	for _, e := range curFiles {
+		d := e.path
+		if !e.dir {
+			d = path.Dir(d)
+		}
+		for d != "." && d != "/" {
+			dirs[d] = true
+			d = path.Dir(d)
+		}
+	}
+	var ds []string
+	for d := range dirs {
+		if !strings.ContainsAny(d, "\xff\xfe\x00") {
+			ds = append(ds, d)
+		}
+	}
+	sort.Strings(ds)
+	root := "root"
+	if len(ds) > 0 && r.Chance(1, 2) {
+		root = ds[r.Intn(len(ds))]
+	}
+	df := ""
+	if r.Chance(1, 2) {
+		var fs []string
+		for _, e := range curFiles {
+			if !e.dir && !e.link && strings.HasPrefix(e.path, root+"/") && !strings.ContainsAny(e.path, "\xff\xfe\x00\\") {
+				fs = append(fs, e.path[len(root)+1:])
+			}
+		}
+		if len(fs) > 0 {
+			df = fs[r.Intn(len(fs))]
+		}
+	}
+	if r.Chance(1, 6) {
+		root += "/"
+	}
+	return root, df
+}
+
 func genFiles(r *vh.Rand) string {
 	n := r.Range(1, 3)
 	version := "v1"
 	var confs []string
+	var usedDefaults []string
 	for i := 0; i < n; i++ {
 		if r.Chance(2, 5) {
 			version = fmt.Sprintf("v%d", r.Range(1, 3))
 		}
 		flag := "ok"
-		if r.Chance(1, 12) {
+		if r.Chance(1, 20) {
 			flag = []string{"garbage", "nover", "nocfg"}[r.Intn(3)]
 		}
 		var ps []string
@@ -391,7 +439,7 @@ func genFiles(r *vh.Rand) string {
 			if !r.Chance(3, 4) {
 				continue
 			}
-			if r.Chance(1, 25) {
+			if r.Chance(1, 40) {
 				ps = append(ps, hx(p)+"=null")
 				continue
 			}
@@ -401,16 +449,18 @@ func genFiles(r *vh.Rand) string {
 				if r.Chance(1, 4) {
 					cond = 0
 				}
-				if r.Chance(1, 20) {
+				if r.Chance(1, 60) {
 					cond = r.Range(2, 3)
 				}
-				if r.Chance(1, 20) {
+				if r.Chance(1, 60) {
 					cmd = r.Range(1, 3)
 				}
-				if r.Chance(1, 20) {
+				if r.Chance(1, 60) {
 					np = []int{0, 1, 3}[r.Intn(3)]
 				}
-				rs = append(rs, fmt.Sprintf("%d.%d.%d.%s.%s", cond, cmd, np, hx(fileRoots[r.Intn(len(fileRoots))]), hx(fileDefaults[r.Intn(len(fileDefaults))])))
+				root, df := pickRootDefault(r)
+				usedDefaults = append(usedDefaults, df)
+				rs = append(rs, fmt.Sprintf("%d.%d.%d.%s.%s", cond, cmd, np, hx(root), hx(df)))
 			}
 			ps = append(ps, hx(p)+"="+strings.Join(rs, "/"))
 		}
@@ -486,7 +536,7 @@ func genFiles(r *vh.Rand) string {
 	}
 	// TypeByExtension facts for every extension the handler may consult
 	exts := map[string]bool{filepath.Ext(p): true}
-	for _, d := range fileDefaults {
+	for _, d := range usedDefaults {
 		exts[filepath.Ext(d)] = true
 	}
 	var keys []string
